@@ -36,7 +36,8 @@ Definition current_cfg : config :=
   mkConfig (pkg_inplace "plugin/proxy/" Generated.C15Sites.sites)
            (pkg_inplace "plugin/binder/" Generated.C15Sites.sites)
            resets_ok
-           502 (str (code_text_of Generated.C15Sentinels.code_text 502)).
+           502 (str (code_text_of Generated.C15Sentinels.code_text 502))
+           (forallb ctor_ok Generated.C15Sites.constructors).
 
 Definition root (n : string) : name := ([], str n).
 
